@@ -48,7 +48,8 @@ PORTS = {'mac': ['/dev/cu.usbmodem1411', '/dev/cu.usbmodem14201', '/dev/cu.usbmo
          'nameonly': ['/dev/ttyACM0', '/dev/ttyACM1', '/dev/ttyACM2', '/dev/ttyACM3', '/dev/ttyACM10', '/dev/ttyACM11']}
 NICK_POOL = ['Bob', 'AxiDraw_7', 'NextDraw01', 'East', 'east2', 'Plotter', 'ab', 'Zed', 'MiniKit', 'Lab-3', 'bob2',
              'x1y2z3', 'Studio A', 'Axi Draw 2', 'West Wing 3', 'Axi+1', 'Rm[4]', 'Lab(2', 'a.b*c', 'Emma', 'Bart',
-             'test rig', 'dot', 'SER', 'OK', ' Axi', 'USB', 'FT232R', 'Arduino', 'My']
+             'test rig', 'dot', 'SER', 'OK', ' Axi', 'USB', 'FT232R', 'Arduino', 'My', 'abcdefghijklmnop',
+             'Long_Plotter_13', 'East,West', 'A1', 'Z']
 FOREIGN = [('FT232R USB UART', 'USB VID:PID=0403:6001 SER=A9XYZ LOCATION=1-3'),
            ('n/a', 'n/a'),
            ('Arduino Uno', 'USB VID:PID=2341:0043 SER=7533 LOCATION=1-1.4'),
@@ -166,11 +167,14 @@ def check(scn, hist):
         out.append(V(PROP, 'hang', '?', None, hist.hang))
         return out
     bus = Bus(scn)
+    epoch = 0
+    named = {}          # layer -> (epoch, names, op id): the two layers must report the same names
     for i, rec in enumerate(hist.ops):
         op = rec['op']
         oid = rec['id']
         if op['op'] == 'env':
             bus.apply(op)
+            epoch += 1
             continue
         ports = bus.ports()
         names_now = [p[0] for p in ports]
@@ -202,6 +206,20 @@ def check(scn, hist):
                         out.append(V(PROP, 'listing', f, oid, 'returned %r for an empty / failing enumeration' % (got,)))
                 elif not (isinstance(got, dict) and 'list' in got and len(got['list']) == len(listed)):
                     out.append(V(PROP, 'listing', f, oid, 'returned %r for %d listed boards' % (got, len(listed))))
+                else:
+                    layer = 'legacy' if f.startswith('ebb_serial.') else 'ebb3'
+                    named[layer] = (epoch, got['list'], oid)
+                    other = named.get('ebb3' if layer == 'legacy' else 'legacy')
+                    if other is not None and other[0] == epoch:
+                        for k, (x1, x2) in enumerate(zip(got['list'], other[1])):
+                            t = tag_of(listed[k])
+                            if t is not None and t[0] == 'SNR':
+                                continue          # only the legacy layer understands the old SNR= tag
+                            if x1 != x2:
+                                out.append(V(PROP, 'layers_disagree', 'list_named_ebbs', oid,
+                                             'board %d (%r, %r) is reported as %r by one layer and %r by the other'
+                                             % (k, listed[k][1], listed[k][2], x1, x2)))
+                                break
             elif f in LOOKUPS:
                 layer = LOOKUPS[f]
                 x = rec.get('args_resolved', [None])[0] if rec.get('args_resolved') else None
